@@ -25,6 +25,7 @@ import (
 	"path/filepath"
 	"reflect"
 	"runtime"
+	"sort"
 	"strconv"
 	"strings"
 	"sync"
@@ -1695,7 +1696,15 @@ func (t *Transaction) AssertedDatasets() []string {
 func (s *Store) ExecuteTransaction(transaction *Transaction) error {
 	datasets := make(map[string]*Dataset)
 
+	// lock the datasets in name order: map iteration order is random, and two transactions over the same
+	// datasets that lock them in different orders wait for each other forever
+	datasetNames := make([]string, 0, len(transaction.DatasetEntities))
 	for k := range transaction.DatasetEntities {
+		datasetNames = append(datasetNames, k)
+	}
+	sort.Strings(datasetNames)
+
+	for _, k := range datasetNames {
 		dataset, ok := s.datasets.Load(k)
 		if !ok {
 			return errors.New("no dataset " + k)
